@@ -586,13 +586,93 @@ fn c06_c13(rep: &mut Report, which: &str) {
     rep.assume("A1: no truncated-hash collision inside a scenario; scenarios where the reference and the real chunker disagree on a seed/prior (known finding F5 input class) are counted as scenarios_outside_model, not judged");
 }
 
+/// What the LOCAL reader reads from the archive device: for every subset of the descriptors of archives with
+/// stored chunks of different sizes (ascending, descending, mixed), the bytes returned by the device to the real
+/// IoReader::read_chunks lie inside the stored ranges of the requested chunks - nothing else is read.
+fn c06_local_device_reads(rep: &mut Report) {
+    use bitar::archive_reader::{ArchiveReader, IoReader};
+    use futures_util::StreamExt;
+    struct RecFile {
+        data: Vec<u8>,
+        pos: u64,
+        log: std::sync::Arc<std::sync::Mutex<Vec<(u64, usize)>>>,
+    }
+    impl tokio::io::AsyncRead for RecFile {
+        fn poll_read(mut self: std::pin::Pin<&mut Self>, _cx: &mut std::task::Context<'_>, buf: &mut tokio::io::ReadBuf<'_>) -> std::task::Poll<std::io::Result<()>> {
+            let start = (self.pos as usize).min(self.data.len());
+            let n = buf.remaining().min(self.data.len() - start);
+            let d = self.data[start..start + n].to_vec();
+            buf.put_slice(&d);
+            self.log.lock().unwrap().push((start as u64, n));
+            self.pos = (start + n) as u64;
+            std::task::Poll::Ready(Ok(()))
+        }
+    }
+    impl tokio::io::AsyncSeek for RecFile {
+        fn start_seek(mut self: std::pin::Pin<&mut Self>, p: std::io::SeekFrom) -> std::io::Result<()> {
+            self.pos = match p {
+                std::io::SeekFrom::Start(o) => o,
+                std::io::SeekFrom::End(d) => (self.data.len() as i64 + d) as u64,
+                std::io::SeekFrom::Current(d) => (self.pos as i64 + d) as u64,
+            };
+            Ok(())
+        }
+        fn poll_complete(self: std::pin::Pin<&mut Self>, _cx: &mut std::task::Context<'_>) -> std::task::Poll<std::io::Result<u64>> {
+            std::task::Poll::Ready(Ok(self.pos))
+        }
+    }
+    let mut agg = Agg::default();
+    let file: Vec<u8> = (0..200u32).map(|i| (i * 13 + 1) as u8).collect();
+    // stored chunks back to back from offset 20, three size patterns
+    for sizes in [vec![3usize, 5, 8, 13, 21], vec![21, 13, 8, 5, 3], vec![9, 2, 14, 4, 11, 1, 7]] {
+        let mut descs: Vec<(u64, usize)> = vec![];
+        let mut o = 20u64;
+        for &s in &sizes {
+            descs.push((o, s));
+            o += s as u64;
+        }
+        for mask in 1usize..(1 << descs.len()) {
+            let want: Vec<(u64, usize)> = descs.iter().enumerate().filter(|(i, _)| mask >> i & 1 == 1).map(|(_, d)| *d).collect();
+            let log = std::sync::Arc::new(std::sync::Mutex::new(vec![]));
+            let mut reader = IoReader::new(RecFile { data: file.clone(), pos: 0, log: log.clone() });
+            let r = catch(|| {
+                drive_ready(async {
+                    let mut st = reader.read_chunks(want.iter().map(|&(o, s)| bitar::ChunkOffset::new(o, s)).collect());
+                    let mut got = vec![];
+                    while let Some(x) = st.next().await {
+                        got.push(x.map(|b| b.to_vec()).map_err(|e| e.to_string()));
+                        if got.len() > 16 {
+                            break;
+                        }
+                    }
+                    got
+                })
+            });
+            agg.add("local_device_read_subsets", 1);
+            let reads = log.lock().unwrap().clone();
+            let detail = || json!({"leg": "local-device-reads", "stored_chunks": descs, "requested": want, "device_reads": reads});
+            match r {
+                Ok(Ok(items)) if items.len() == want.len() && items.iter().zip(want.iter()).all(|(i, w)| i.as_ref().ok().map(|b| &b[..]) == Some(&file[w.0 as usize..w.0 as usize + w.1])) => {
+                    let stray = reads.iter().any(|&(o, n)| n > 0 && !(o..o + n as u64).all(|x| want.iter().any(|w| x >= w.0 && x < w.0 + w.1 as u64)));
+                    if stray {
+                        agg.viol("read-outside-requested-chunks", detail);
+                    }
+                }
+                _ => agg.viol("local-read-of-valid-ranges-failed", detail),
+            }
+        }
+    }
+    rep.agg.merge(agg);
+}
+
 pub fn c06(rep: &mut Report) {
+    c06_local_device_reads(rep);
     c06_c13(rep, "C06");
     crate::clilegs::run(rep, crate::clilegs::Which::C06, false);
     crate::clilegs::run(rep, crate::clilegs::Which::C06, true);
     let ev = rep.agg.get("scenarios") + rep.agg.get("cli_scenarios") + rep.agg.get("cli_blockdev_scenarios");
     rep.set("evaluations", json!(ev));
-    rep.set("rule", json!("CLI legs: the real clone_cmd against the logging loopback HTTP server for new / existing / in-place outputs and through the block device path (hook H1), oracle: Range requests == two header reads + maximal runs of the expected missing descriptors; library leg: recording ArchiveReader around the in-memory archive; all sources x {prior outputs used as seed, existing outputs not used as seed, single seeds, prior+seed combinations} over the word universes; oracle: requested chunk ranges == stored ranges of (source chunks) - (chunks the reference chunker finds in seeds / prior output), as a multiset, everything else read lies inside the header; distinct_nontrivial = distinct (write log, fetch list) outcomes"));
+    rep.set("rule", json!("CLI legs: the real clone_cmd against the logging loopback HTTP server for new / existing / in-place outputs and through the block device path (hook H1), oracle: Range requests == two header reads + maximal runs of the expected missing descriptors; library leg: recording ArchiveReader around the in-memory archive; all sources x {prior outputs used as seed, existing outputs not used as seed, single seeds, prior+seed combinations} over the word universes; oracle: requested chunk ranges == stored ranges of (source chunks) - (chunks the reference chunker finds in seeds / prior output), as a multiset, everything else read lies inside the header; local device level: for every subset of stored chunks of ascending / descending / mixed sizes, the bytes the device returns to the real IoReader lie inside the requested chunks; distinct_nontrivial = distinct (write log, fetch list) outcomes"));
 }
 pub fn c13(rep: &mut Report) {
     c06_c13(rep, "C13");
